@@ -37,6 +37,17 @@ theorem szs_le_encs (xs : Slots) (hw : xs.wfAll = true) (hc : xs.closedAll = tru
     omega
 end
 
+/-- `decodeText` in terms of the item decoder -/
+theorem decodeText_some (text : Bytes) (t : Tmpl) :
+    decodeText text = some t ↔ decItem (text.length + 1) text = some (t, []) := by
+  unfold decodeText
+  constructor
+  · intro h
+    split at h
+    · rename_i t' heq; injection h with h; subst h; exact heq
+    · cases h
+  · intro h; rw [h]
+
 /-- decoding the text of a message: exactly one item and nothing left over -/
 theorem decItem_text (t : Tmpl) (hw : t.wf = true) (hc : t.closed = true) :
     decItem (t.enc.length + 1) t.enc = some (t, []) := by
@@ -58,10 +69,7 @@ namespace Secs
 /-- `decode` on a framed data message, with the header bytes spelled out -/
 theorem decode_frame (x y b2 fn a b c d : Nat) (text : Bytes) (hL : text.length + 10 < 256 ^ 4) :
     decode (beEnc 4 (text.length + 10) ++ (x :: y :: b2 :: fn :: 0 :: 0 :: a :: b :: c :: d :: text)) =
-    match (if text.length + 10 == 10 then some Tmpl.empty
-           else match decItem (text.length + 1) text with
-             | some (t, []) => some t
-             | _ => none) with
+    match (if text.length + 10 == 10 then some Tmpl.empty else decodeText text) with
     | none => none
     | some item =>
       (mkHsmsMsg [] ((b2 % 128 : Nat) : Int) ((fn : Nat) : Int) ((b2 / 128 : Nat) : Int) dirBoth item
